@@ -155,3 +155,63 @@ def serve (enums : List String) (routes : List SRoute) (rq : Req) : Outcome :=
   | some (sr, b) => serveRoute enums sr b rq
 
 end Gleece.Serve
+
+/-! ### the engine-specific part made explicit (C12)
+
+Everything above reads the request through three accessors; a framework is, for the handler, exactly such a
+triple.  `stdAccessors` is the reading used by `serve` (what a faithful framework delivers). -/
+namespace Gleece.Serve
+open Gleece.Reduce Gleece.Validate Gleece.IR Gleece.Router
+
+structure Accessors where
+  scalar : PInfo → Option String      -- the raw text of a path / query / header / form parameter, if present
+  multi  : PInfo → List String        -- all raw values of a query key
+  body   : Option String              -- the bound JSON body (canonical text), if it binds and validates
+
+def stdAccessors (bound : List (String × String)) (rq : Req) : Accessors :=
+  { scalar := fun pi =>
+      if pi.p.passedIn = "path" then bound.lookup pi.p.nameInSchema
+      else if pi.p.passedIn = "query" then (rq.query.find? (·.1 = pi.p.nameInSchema)).map (·.2)
+      else if pi.p.passedIn = "header" then lookupCI rq.headers pi.p.nameInSchema
+      else if pi.p.passedIn = "form" then (rq.form.find? (·.1 = pi.p.nameInSchema)).map (·.2)
+      else none,
+    multi := fun pi => (rq.query.filter (·.1 = pi.p.nameInSchema)).map (·.2),
+    body := if rq.hasBody && rq.bodyOk then some rq.body else none }
+
+def bindParamA (enums : List String) (acc : Accessors) (pi : PInfo) : Option String :=
+  if pi.p.isContext then some "ctx" else
+  let isPtr := pi.ty.startsWith "*"
+  let base := stripPtr pi.ty
+  let required := isFieldRequired pi.p.validator.toList
+  if pi.p.passedIn = "body" then
+    acc.body.map fun b => (if isPtr then "&" else "") ++ b
+  else if base.startsWith "[]" then
+    let el := (base.drop 2).toString
+    let raws := acc.multi pi
+    if raws.isEmpty then (if required then none else some "<nil>")
+    else
+      let cs := raws.map (convertScalar enums el)
+      if cs.any Option.isNone then none else some ((if isPtr then "&" else "") ++ "[" ++ " ".intercalate (cs.filterMap id) ++ "]")
+  else
+    match acc.scalar pi with
+    | none => if required then none else some "<nil>"
+    | some r => (convertScalar enums base r).map fun t => (if isPtr then "&" else "") ++ t
+
+def bindAllA (enums : List String) (acc : Accessors) : List PInfo → Option (List String)
+  | [] => some []
+  | pi :: rest =>
+    match bindParamA enums acc pi with
+    | none => none
+    | some a => (bindAllA enums acc rest).map (a :: ·)
+
+/-- a handler run on top of a framework `acc` with authorization callback `cb` -/
+def serveRouteA (enums : List String) (cb : Callback) (acc : Accessors) (sr : SRoute) : Outcome :=
+  let (res, asked) := authorize cb [] none (sr.r.security.map checksOf)
+  match res with
+  | some _ => .refused asked
+  | none =>
+    match bindAllA enums acc sr.infos with
+    | none => .invalid asked
+    | some args => .called asked (sr.ctrl ++ "." ++ sr.r.opId) args (if sr.r.hasReturn then 200 else 204)
+
+end Gleece.Serve
